@@ -10,6 +10,10 @@ Scalars are numbers or text: for a text prefix Python answers `key in d` (substr
 raises for a number, so _assign gets as far as the item assignment; the specification transcribes
 that, records what is in _record when a call raises, and lets the rollback itself fail.
 
+Whether a set through a scalar prefix must raise is not part of the property: if the real call does
+not raise where the transcription does, that alone is no alarm, but the policy-free clauses still
+bind (get sees the set values; leaving the context restores the entry configuration).
+
 spec -> code: every state of the TLC graph is exported with the canonical history that reaches it;
 the real dask.config.set is driven along it on a private dict and back out through every exit, the
 dict is compared with the specification state after every call (every transition of the graph is
@@ -525,9 +529,9 @@ def judge_all(items, report, skip, count):
 
 def validate_records(ctx, recs, report):
     spec, cfg = ctx.model(ctx.spec("sched", "ConfigTrace.tla"), {})
-    for lo in range(0, len(recs), 4000):
-        part = recs[lo:lo + 4000]
-        rej = ctx.tlc_validate(spec, part, cfg, timeout=1500)
+    for lo in range(0, len(recs), 10000):
+        part = recs[lo:lo + 10000]
+        rej = ctx.tlc_validate(spec, part, cfg, timeout=2400)
         byid = {r["id"]: r for r in part}
         for rid, clauses in rej.items():
             cl = first_clause(clauses[0])
@@ -572,9 +576,9 @@ def run(ctx):
                 ("StdPaths", 1, 4, LEAF, "design+states: 1 assignment/call, nesting 4"),
                 (TINY_PATHS, 2, 2, DICT, "design+states: mapping values, 2 assignments/call, nesting 2"),
                 (TEXT_PATHS, 2, 2, TEXT, "design+states: text values, 2 assignments/call, nesting 2"),
-                ("StdPaths", 1, 3, TEXT, "design+states: text values, 1 assignment/call, nesting 3"),
+                ("StdPaths", 1, 2, TEXT, "design+states: text values, 1 assignment/call, nesting 2"),
                 (TINY_PATHS, 2, 3, LEAF, "design+states: 2 assignments/call, nesting 3")]
-        cap = 250000
+        cap = 80000
     # code -> spec recording first (pure Python, seeded), then all TLC runs side by side
     side = []
     recs = record_all(ctx, ctx.pick(1500, 20000), ctx.pick(1500, 20000), lambda *a: side.append(a))
